@@ -351,6 +351,15 @@ def F23():
         return f"refine_droplet with an empty fit region and automatic level aborts: ValueError {e}"
 
 
+def F30():
+    from droplets import SphericalDroplet, Emulsion
+    em = Emulsion([SphericalDroplet([0.5], 0.0), SphericalDroplet([0.5], 0.0), SphericalDroplet([0.5], 0.5)])
+    nd = em.get_neighbor_distances(subtract_radius=True)
+    if abs(nd[2] - (-0.5)) > 1e-12:
+        return (f"three droplets at the same position: surface distance of the third to its nearest neighbour reported as {nd[2]}, "
+                "expected 0 - (0.5 + 0) = -0.5 (the radii of two OTHER droplets were subtracted)")
+
+
 ALL = {k: v for k, v in globals().items() if k[0] == "F" and callable(v)}
 
 if __name__ == "__main__":
